@@ -24,7 +24,7 @@ var flowPolicies = []flag.ErrorHandling{flag.ContinueOnError, flag.ExitOnError, 
 func runFlow(c *Ctx) {
 	maxd := 3
 	if c.Thorough() {
-		maxd = 4
+		maxd = 5
 	}
 	idx := 0
 	for d := 0; d <= maxd; d++ {
